@@ -70,6 +70,7 @@ class WaveDriver:
         self.on_quiescent = on_quiescent
         self.on_deadlock = on_deadlock
         self.period = period
+        self._stop_ev = threading.Event()  # stop() wakes the sampling thread at once (a 50 ms sleep would delay every run's return)
         self.lock = threading.Lock()
         self.gated = {}  # key -> lock object (arrival order preserved)
         self.passed = 0
@@ -145,7 +146,7 @@ class WaveDriver:
         a = self.sample(include_display=True)
         if a is None:
             return False
-        time.sleep(self.period)
+        self._stop_ev.wait(self.period)
         return a == self.sample(include_display=True)
 
     def _diagnose(self):
@@ -178,7 +179,7 @@ class WaveDriver:
                 pending = self.released - self.passed
             if pending > 0:
                 prev = None
-                time.sleep(self.period)
+                self._stop_ev.wait(self.period)
                 continue
             vec = self.sample()
             self.rounds += 1
@@ -188,7 +189,7 @@ class WaveDriver:
                 # re-check the handshake: nothing was released meanwhile (only we release) -> stable
                 return True
             prev = vec
-            time.sleep(self.period)
+            self._stop_ev.wait(self.period)
         return False
 
     def start(self, caller=None):
@@ -202,6 +203,7 @@ class WaveDriver:
 
     def stop(self):
         self.stopping = True
+        self._stop_ev.set()
         self.release_all()
         if self.thread is not None:
             self.thread.join()
@@ -260,14 +262,14 @@ class WaveDriver:
                 if self.on_quiescent is not None:
                     self.on_quiescent(self, keys)
                 if self.hold:
-                    time.sleep(self.period)
+                    self._stop_ev.wait(self.period)
                     continue
                 if not keys:
                     if self.run_done or self.stopping:
                         return
                     if not self.confirm_all_parked():
                         # e.g. the caller waits (untimed) for a bundled observer's display thread, which wakes on a timer
-                        time.sleep(self.period)
+                        self._stop_ev.wait(self.period)
                         continue
                     if self.run_done or self.stopping:
                         # the caller left run() meanwhile and is parked joining THIS thread: it set the flags before parking
